@@ -2,7 +2,8 @@
 """seedtest.py <patch.diff> <demo.py> <property id> [more property ids...]
 
 Confirms a seeded change (applies cleanly to a scratch worktree of /repo's HEAD, the repository's test suite still passes, the
-demonstration fails with the change and passes without it) and then runs the named checks (quick tier) against the patched scratch
+demonstration fails with the change and passes without it; "-" as demo skips that: used for benign refactorings, which every check
+must let through) and then runs the named checks (quick tier) against the patched scratch
 worktree (VERIF_REPO), reporting which of them raise a VIOLATION.  Nothing is applied to /repo itself; the worktree is removed."""
 import json, os, subprocess, sys, tempfile, shutil, time
 
@@ -16,7 +17,7 @@ def sh(cmd, cwd=None, env=None, timeout=3600):
 
 
 def main():
-    patch, demo, pids = os.path.abspath(sys.argv[1]), os.path.abspath(sys.argv[2]), sys.argv[3:]
+    patch, demo, pids = os.path.abspath(sys.argv[1]), (os.path.abspath(sys.argv[2]) if sys.argv[2] != "-" else None), sys.argv[3:]
     tier = os.environ.get("SEED_TIER", "quick")
     wt = tempfile.mkdtemp(prefix="verif-seed-")
     os.rmdir(wt)
@@ -25,10 +26,11 @@ def main():
         rc, o = sh(["git", "-C", "/repo", "worktree", "add", "--detach", "-q", wt, "HEAD"])
         assert rc == 0, o
         os.makedirs(os.path.join(wt, "_seed"), exist_ok=True)
-        shutil.copy(demo, os.path.join(wt, "_seed", os.path.basename(demo)))
         env = dict(os.environ, PYTHONPATH=wt, PYTHONDONTWRITEBYTECODE="1")
-        rc, o = sh([PY, os.path.join("_seed", os.path.basename(demo))], cwd=wt, env=env, timeout=600)
-        out["demo_passes_without_change"] = rc == 0
+        if demo:
+            shutil.copy(demo, os.path.join(wt, "_seed", os.path.basename(demo)))
+            rc, o = sh([PY, os.path.join("_seed", os.path.basename(demo))], cwd=wt, env=env, timeout=600)
+            out["demo_passes_without_change"] = rc == 0
         rc, o = sh(["git", "apply", "--whitespace=nowarn", patch], cwd=wt)
         out["applies"] = rc == 0
         if rc != 0:
@@ -37,9 +39,10 @@ def main():
         rc, o = sh([PY, "-m", "pytest", "-q", "-p", "no:cacheprovider", "-x"], cwd=wt, env=env, timeout=1200)
         out["tests_pass_with_change"] = rc == 0
         out["tests_tail"] = o.strip().splitlines()[-1] if o.strip() else ""
-        rc, o = sh([PY, os.path.join("_seed", os.path.basename(demo))], cwd=wt, env=env, timeout=600)
-        out["demo_fails_with_change"] = rc != 0
-        out["demo_tail"] = o.strip()[-300:]
+        if demo:
+            rc, o = sh([PY, os.path.join("_seed", os.path.basename(demo))], cwd=wt, env=env, timeout=600)
+            out["demo_fails_with_change"] = rc != 0
+            out["demo_tail"] = o.strip()[-300:]
         for pid in pids:
             t = time.time()
             rc, o = sh([os.path.join(VERIF, "vcheck"), pid, "--tier", tier], cwd=VERIF, env=dict(os.environ, VERIF_REPO=wt, VERIF_SEEDTEST="1"), timeout=7200)
